@@ -31,8 +31,16 @@ def run(ck):
     from .c01 import g4_legality_filter
     ck.run_rule(g4_legality_filter)
     # mate is told from stalemate by State::is_check: its wiring (C10 B5) is necessary here
-    from .c10 import b5_is_check
+    from .c10 import b5_is_check, b6_from_occupancy, b7_dispatch
     ck.run_rule(b5_is_check)
+    # "in check" and the legality filter read the attack map; "no legal move" is the emptiness of the generated list: the map's
+    # construction (C10 B6/B7) and the generators' coverage and pawn rules (C01 G1-G3, G7-G9)
+    ck.run_rule(b6_from_occupancy)
+    ck.run_rule(b7_dispatch)
+    from .c01 import g1_coverage, g2_g3_generators, g7_g8_g9_pawns
+    ck.run_rule(g1_coverage)
+    ck.run_rule(g2_g3_generators)
+    ck.run_rule(g7_g8_g9_pawns)
 
 
 def names_of(b):
